@@ -45,21 +45,44 @@ def drive(wd):
     with open(os.path.join(wd, 'model'), 'w') as out:
         subprocess.run([common.DRIVER, 'pollh', os.path.join(wd, 'ops'), os.path.join(wd, 'impl')], stdout=out, check=True, timeout=3600)
 
-def run_shard(binary, wd, args):
+def run_harness(binary, wd, args):
+    """phase 1: the Go harness only (needs no Lean artefact); returns (returncode, output tail)"""
     os.makedirs(wd, exist_ok=True)
     p = subprocess.run([binary, *args, '-ops-out', os.path.join(wd, 'ops'), '-impl-out', os.path.join(wd, 'impl')],
                        stdout=subprocess.PIPE, stderr=subprocess.STDOUT, text=True, timeout=3600)
+    return p.returncode, p.stdout[-500:]
+
+def drive_and_analyse(wd, args, rc, out):
+    """phase 2: replay on the model, compare, judge"""
     drive(wd)
     r = analyse(wd)
-    if p.returncode != 0:
-        r['problems'].append(('', 'harness-exit', 'pollh %s exited %d: %s' % (' '.join(args), p.returncode, p.stdout[-500:])))
+    if rc != 0:
+        r['problems'].append(('', 'harness-exit', 'pollh %s exited %d: %s' % (' '.join(args), rc, out)))
     return r
+
+def run_shard(binary, wd, args):
+    rc, out = run_harness(binary, wd, args)
+    return drive_and_analyse(wd, args, rc, out)
+
+def start_harnesses(binary, base_wd, jobs):
+    """launch every harness job now (threads around subprocesses); returns futures"""
+    from concurrent.futures import ThreadPoolExecutor
+    ex = ThreadPoolExecutor(max_workers=16)
+    return ex, [ex.submit(run_harness, binary, os.path.join(base_wd, name), args) for name, args in jobs]
+
+def finish(base_wd, jobs, futs):
+    rcs = [f.result() for f in futs]
+    with ProcessPoolExecutor(max_workers=16) as ex:
+        fs = [ex.submit(drive_and_analyse, os.path.join(base_wd, name), args, rc, out) for (name, args), (rc, out) in zip(jobs, rcs)]
+        return [f.result() for f in fs]
 
 def run_many(binary, base_wd, jobs):
     """jobs: list of (name, args)"""
-    with ProcessPoolExecutor(max_workers=16) as ex:
-        futs = [ex.submit(run_shard, binary, os.path.join(base_wd, name), args) for name, args in jobs]
-        return [f.result() for f in futs]
+    ex, futs = start_harnesses(binary, base_wd, jobs)
+    try:
+        return finish(base_wd, jobs, futs)
+    finally:
+        ex.shutdown()
 
 def replay_lines(binary, lines, wd):
     os.makedirs(wd, exist_ok=True)
